@@ -440,6 +440,10 @@ class KeyHash(Key):
         kd = k.decode()
         # raw 20-byte hash
         if len(kd) == 40:
+            try:
+                unhexlify(kd)
+            except ValueError:
+                raise ArgumentError("Invalid key hash: 40 hex characters expected")
             return kd, False
         return super().parse_key(k, *args, **kwargs)
 
